@@ -615,7 +615,8 @@ def exact_length(ctx, facts):
         if not good and oks:
             def pins_len(f):
                 op, l, r = f
-                return op == "Eq" and l is not None and l[0] == "len" or (op == "Eq" and l is not None and "len" == l[0])
+                # `let &[a, b] = bytes` tests the slice's length (its pointer metadata) for equality
+                return op == "Eq" and any(x is not None and x[0] == "un" and x[1] in ("PtrMetadata", "Len") and x[2][:2] == ("arg", 1) for x in (l, r))
             good = all(flow.holds(b, dom, o, pins_len) for o in oks)
         if not good and oks:
             # whole input handed to a sibling decoder whose verdict is `?`-propagated
